@@ -94,6 +94,9 @@ def gen(prop, stream, tier, avoid):
         k = rng.weighted(weights)
         o = rng.randrange(nobj)
         t = [rng.randint(0, 32) / 32.0 for _ in range(3)]
+        for d_ in range(len(objs[o]["knots"])):
+            if rng.chance(0.3):
+                t[d_] = rng.pick(objs[o]["knots"][d_])      # exactly on a knot (span search decisions live there)
         op = {"op": k, "obj": o}
         if k == "eval":
             op["t"] = t
@@ -128,7 +131,7 @@ def gen(prop, stream, tier, avoid):
         elif k == "voxelize":
             op["grid"] = [rng.randint(2, 5) for _ in range(3)]
             op["target"] = rng.pick(["obj", "container"]) if (pooled and surf_idx) else "obj"
-            op["n"] = rng.randint(2, 5)
+            op["n"] = rng.randint(3, 5)
         elif k == "ctess":
             op["delta"] = rng.chance(0.6)
             op["force"] = rng.chance(0.5)
@@ -271,7 +274,8 @@ def _piece_obs(obj):
 def execute_workload(script, cfg):
     """Returns (observations, info). observations[i] = ['ok', value] | ['exc', name] | ['skip']."""
     g = shapes.G.load()
-    simpool.install()
+    if not cfg.get("real_pool"):
+        simpool.install()
     simpool.configure(h64(script.get("seed", 0), script.get("run", 0), "pool", cfg["sched"]), cfg["chunk"], cfg["faults"], None)
     objs = []
     for spec in script["objects"]:
@@ -585,6 +589,8 @@ def run(script, ctx):
     base_cfg = dict(BASELINE)
     base, binfo = _in_child(lambda: execute_workload(script, base_cfg), reimport_unset=zy_cache is not None)
     ctx.log("baseline", [b[0] for b in base])
+    for b, op in zip(base, script["ops"]):
+        ctx.extra["baseline_%s:%s" % (b[0], op["op"])] = ctx.extra.get("baseline_%s:%s" % (b[0], op["op"]), 0) + 1
     ctx.ops_executed += len(base)
     if zy_cache is not None:
         ctx.probe("baseline_reimported_with_cache_unset")
